@@ -1,14 +1,187 @@
 import WcModel.Model.Parse
 /-
-  `_get_win_drive` (wcmatch/_wcparse.py:345-393), regex=True form.  (stub: filled below)
+  `_get_win_drive` (wcmatch/_wcparse.py:345-393), `regex=True` form, with hand-ported
+  scanners for RE_WIN_DRIVE_START / RE_WIN_DRIVE_LETTER / RE_WIN_DRIVE_PART /
+  RE_WIN_DRIVE_UNESCAPE (their texts are pinned in `Generated.lean`).
 -/
 namespace WcModel
+namespace Win
 
-def winDrive (_cfg : Cfg) (p : List Char) : DriveInfo :=
-  let rootSpec := match p with
-    | '\\' :: '\\' :: _ => true
-    | '/' :: _ => true
-    | _ => false
-  { rootSpecified := rootSpec, drive := none, slash := false, endIdx := 0 }
+/-- `(?:\\\\|/)` : two backslashes, or a slash.  Returns the length matched. -/
+def sep2 : List Char → Option Nat
+  | '\\' :: '\\' :: _ => some 2
+  | '/' :: _ => some 1
+  | _ => none
+
+/-- `((?:\\\\|/)|$)` : (length, groupNonEmpty) -/
+def sepOrEnd (s : List Char) : Option (Nat × Bool) :=
+  match sep2 s with
+  | some n => some (n, true)
+  | none => if atEos s then some (0, false) else none
+
+/-- `(?:\\[^\\/]|[^\\/])+` greedy: the consumed text (raw) and the rest -/
+def partChars : List Char → List Char × List Char
+  | '\\' :: c :: rest =>
+    if c = '\\' || c = '/' then ([], '\\' :: c :: rest)
+    else let (a, b) := partChars rest; ('\\' :: c :: a, b)
+  | '\\' :: [] => ([], ['\\'])
+  | '/' :: rest => ([], '/' :: rest)
+  | c :: rest => let (a, b) := partChars rest; (c :: a, b)
+  | [] => ([], [])
+
+/-- `RE_WIN_DRIVE_UNESCAPE.sub(r'\1', s)` : `\\(.)` → `\1` (`.` does not match newline) -/
+def unescape : List Char → List Char
+  | '\\' :: c :: rest => if c = '\n' then '\\' :: unescape (c :: rest) else c :: unescape rest
+  | c :: rest => c :: unescape rest
+  | [] => []
+
+def lower (s : List Char) : List Char := s.map asciiLower
+
+def isLetter (c : Char) : Bool := ('a' ≤ c && c ≤ 'z') || ('A' ≤ c && c ≤ 'Z')
+
+/-- one anchored attempt of RE_WIN_DRIVE_PART: (group1 raw, total length, slash) -/
+def partAt (s : List Char) : Option (List Char × Nat × Bool) :=
+  let (g1, rest) := partChars s
+  if g1.isEmpty then none else
+  match sepOrEnd rest with
+  | some (n, b) => some (g1, g1.length + n, b)
+  | none => none
+
+/-- `finditer` search for the next part starting at or after the head of `s`;
+    returns (skipped, group1 raw, match length, slash) -/
+def partSearch : Nat → List Char → Nat → Option (Nat × List Char × Nat × Bool)
+  | 0, _, _ => none
+  | fuel+1, s, skipped =>
+    match partAt s with
+    | some (g, n, b) => some (skipped, g, n, b)
+    | none =>
+      match s with
+      | [] => none
+      | _ :: rest => partSearch fuel rest (skipped + 1)
+
+structure Scan where
+  parts : List (List Char)   -- unescaped parts, in order
+  slash : Bool
+  endIdx : Nat
+  count : Nat
+  complete : Nat
+  first : Nat
+
+/-- the `for count, m2 in enumerate(finditer…)` loop -/
+def partsLoop (isSpecial : Bool) : Nat → List Char → Scan → Scan
+  | 0, _, st => st
+  | fuel+1, s, st =>
+    match partSearch (s.length + 1) s 0 with
+    | none => st
+    | some (skipped, g, n, b) =>
+      let count := st.count + 1
+      let p := unescape g
+      let st := { st with parts := st.parts ++ [p], slash := b, endIdx := st.endIdx + skipped + n,
+                          count := count }
+      let st :=
+        if isSpecial then
+          if count = st.first && lower p = "unc".toList then { st with complete := st.complete + 2 }
+          else if count = st.first && lower p = "global".toList then
+            { st with first := st.first + 1, complete := st.complete + 1 }
+          else st
+        else st
+      if count = st.complete then st
+      else
+        -- a zero-length tail cannot match again (group 1 needs a character)
+        partsLoop isSpecial fuel (s.drop (skipped + n)) st
+
+def litsOf (s : List Char) : Re :=
+  match s with
+  | [] => .eps
+  | [c] => .lit c
+  | c :: rest => .cat (.lit c) (litsOf rest)
+
+/-- `escape_drive` -/
+def escapeDrive (s : List Char) (caseSensitive : Bool) : Re :=
+  if caseSensitive then .flags false true (litsOf s) else litsOf s
+
+def joinSep : List Re → Re
+  | [] => .eps
+  | [r] => r
+  | r :: rs => .cat r (.cat (Frag.sep true) (joinSep rs))
+
+end Win
+
+open Win in
+def winDrive (cfg : Cfg) (p : List Char) : DriveInfo :=
+  let none_ (root : Bool) : DriveInfo := { rootSpecified := root, drive := none, slash := false, endIdx := 0 }
+  -- alternative (A): two separators then a name
+  let altA : Option (List Char × Nat × Bool) :=   -- (group2 raw, end, group4 non-empty)
+    match sep2 p with
+    | none => none
+    | some n1 =>
+      match sep2 (p.drop n1) with
+      | none => none
+      | some n2 =>
+        let (g2, rest) := partChars (p.drop (n1 + n2))
+        if g2.isEmpty then none else
+        match sepOrEnd rest with
+        | some (n4, b) => some (g2, n1 + n2 + g2.length + n4, b)
+        | none => none
+  -- alternative (B): `[\\]?[a-z][\\]?:`
+  let altB : Option (List Char × Nat × Bool) :=   -- (group3 raw, end, group4 non-empty)
+    let (b1, r1) := match p with
+      | '\\' :: r => (['\\'], r)
+      | r => ([], r)
+    let tryFrom (pre : List Char) (r : List Char) : Option (List Char × Nat × Bool) :=
+      match r with
+      | l :: r2 =>
+        if !isLetter l then none else
+        let fin (g3 : List Char) (r3 : List Char) : Option (List Char × Nat × Bool) :=
+          match r3 with
+          | ':' :: r4 =>
+            match sepOrEnd r4 with
+            | some (n4, b) => some (g3 ++ [':'], (g3.length + 1) + n4, b)
+            | none => none
+          | _ => none
+        -- optional backslash after the letter (greedy, then without)
+        match r2 with
+        | '\\' :: r3 =>
+          match fin (pre ++ [l, '\\']) r3 with
+          | some x => some x
+          | none => fin (pre ++ [l]) r2
+        | _ => fin (pre ++ [l]) r2
+      | [] => none
+    match tryFrom b1 r1 with
+    | some x => some x
+    | none => if b1.isEmpty then none else tryFrom [] p
+  match altA with
+  | some (g2, end0, _) =>
+    let part0 := unescape g2
+    let isSpecial := lower part0 = ['.'] || lower part0 = ['?']
+    let st := partsLoop isSpecial (p.length + 1) (p.drop end0)
+      { parts := [part0], slash := false, endIdx := end0, count := 0, complete := 1, first := 1 }
+    if st.count = st.complete then
+      let r : Re := .cat (.rep 2 2 (Frag.sep true))
+        (joinSep (st.parts.map (fun q => escapeDrive q cfg.caseSensitive)))
+      { rootSpecified := true, drive := some [.re r], slash := st.slash, endIdx := st.endIdx }
+    else none_ true
+  | none =>
+    match altB with
+    | some (g3, end0, b4) =>
+      -- RE_WIN_DRIVE_LETTER on group(0): `[a-z]:` then one `\`, `/`, or end
+      let g0 := p.take end0
+      let letterOk : Bool :=
+        match g0 with
+        | l :: ':' :: r => isLetter l && (match r with
+            | '\\' :: _ => true
+            | '/' :: _ => true
+            | r => atEos r)
+        | _ => false
+      if letterOk then
+        let d := (unescape g3).map (fun c => if c = '/' then '\\' else c)
+        { rootSpecified := true, drive := some [.re (escapeDrive d cfg.caseSensitive)], slash := b4,
+          endIdx := end0 }
+      else none_ false
+    | none =>
+      match p with
+      | '\\' :: '\\' :: _ => none_ true
+      | '/' :: _ => none_ true
+      | _ => none_ false
 
 end WcModel
